@@ -73,17 +73,23 @@ class RouterModel:
         if mod_id == DYN_START:
             return "either"  # manager accepts <=100, Client refuses >=100: boundary left open
         verdict = "accept"
+        refuse = False
         for x in self.mods.values():
             if x is m:
                 continue
+            conflict = None
             if x.mod_id == mod_id and (x.unique or unique):
-                return "refuse"
-            if name and x.name == name:
+                conflict = "refuse"
+            elif name and x.name == name:
                 if x.unique:
-                    return "refuse"          # reuses the name of a unique module, explicit id
-                if unique:
-                    verdict = "either"      # unique newcomer re-using a non-unique module's name: open
-        return verdict
+                    conflict = "refuse"      # reuses the name of a unique module, explicit id
+                elif unique:
+                    conflict = "either"      # unique newcomer re-using a non-unique module's name: open
+            if conflict == "refuse" and not x.fin:
+                refuse = True
+            elif conflict:
+                verdict = "either"           # x closed its socket; the manager may or may not have noticed yet
+        return "refuse" if refuse else verdict
 
     def do_connect(self, m, mod_id, unique, name, logger, daemon, pid):
         m.mod_id = mod_id
